@@ -73,6 +73,18 @@ def swapElems (l : LMat α) (i1 j1 i2 j2 : Nat) : Option (LMat α) :=
       if r = i1 ∧ c = j1 then l.el i2 j2 else if r = i2 ∧ c = j2 then l.el i1 j1 else l.el r c }
   else none
 
+/-- `*m.get_mut((i, j))? = v`: the partial function updated at `(i, j)` when in range -/
+def setAt (l : LMat α) (i j : Nat) (v : α) : Option (LMat α) :=
+  if i < l.nrows ∧ j < l.ncols then
+    some { l with el := fun r c => if r = i ∧ c = j then some v else l.el r c }
+  else none
+
+/-- `*e = f(*e)` at `(i, j)` when in range -/
+def updAt (l : LMat α) (i j : Nat) (f : α → α) : Option (LMat α) :=
+  if i < l.nrows ∧ j < l.ncols then
+    some { l with el := fun r c => if r = i ∧ c = j then (l.el i j).map f else l.el r c }
+  else none
+
 def overwrite (dst src : LMat α) (clone : α → α) : LMat α :=
   { dst with el := fun r c =>
       if r < min dst.nrows src.nrows ∧ c < min dst.ncols src.ncols then (src.el r c).map clone
@@ -182,6 +194,8 @@ def step (es : Nat) (w : LWorld α) : Op α → LWorld α
     | _, _ => w
   | .clear r => upd w r clear
   | .drop r => setReg w r none
+  | .setAt r i j v => upd? w r (setAt · i j v)
+  | .updAt r i j f => upd? w r (updAt · i j f)
 
 def run (es : Nat) : LWorld α → List (Op α) → LWorld α
   | w, [] => w
@@ -423,6 +437,61 @@ theorem swapElems_refines (m : Matrix α) (hm : Good m) (i1 j1 i2 j2 : Nat) :
       fun h => h1 ⟨h.1, h.2.1⟩
     simp only [Spec.swapElems, abs_nrows, abs_ncols, hc, ↓reduceIte, Option.getD_none]
 
+
+/-! ### element writes -/
+
+/-- the logical view after replacing the element at the offset of the in-range coordinate `(i, j)`:
+only that coordinate changes (offsets of distinct in-range coordinates are distinct) -/
+theorem at?_write (m : Matrix α) (hc : m.Coh) {i j : Nat} (h : i < m.nrows ∧ j < m.ncols)
+    (d' : Array α) (x : Option α) (hx : d'[m.idx i j]? = x)
+    (hk : ∀ k, k ≠ m.idx i j → d'[k]? = m.data[k]?) (r c : Nat) :
+    (Matrix.mk m.order m.shape d').at? r c = if r = i ∧ c = j then x else m.at? r c := by
+  by_cases hb : r < m.nrows ∧ c < m.ncols
+  · have e0 : (Matrix.mk m.order m.shape d').at? r c = d'[m.idx r c]? :=
+      at?_inb (Matrix.mk m.order m.shape d') hb
+    rw [e0]
+    by_cases c1 : r = i ∧ c = j
+    · rw [if_pos c1, c1.1, c1.2]; exact hx
+    · rw [if_neg c1, at?_inb m hb]
+      exact hk _ (fun he => c1 (m.idx_inj hb.1 hb.2 h.1 h.2 he))
+  · have c1 : ¬ (r = i ∧ c = j) := fun e => hb ⟨e.1 ▸ h.1, e.2 ▸ h.2⟩
+    rw [if_neg c1, at?_oob m hb]
+    exact at?_oob _ hb
+
+theorem setAt_refines (m : Matrix α) (hm : Good m) (i j : Nat) (v : α) :
+    ∃ e m', m.setAt i j v = .ok (e, m') ∧ abs m' = (Spec.setAt (abs m) i j v).getD (abs m) := by
+  unfold Matrix.setAt
+  rw [C04.get_exact m hm.1 hm.2 i j]
+  by_cases h : i < m.nrows ∧ j < m.ncols
+  · rw [if_pos h]
+    refine ⟨_, _, rfl, ?_⟩
+    simp only [Spec.setAt, abs_nrows, abs_ncols, h, and_self, ↓reduceIte, Option.getD_some]
+    apply abs_eq rfl rfl rfl
+    intro r c
+    simp only [abs_el]
+    have hlt := m.idx_lt hm.1 h.1 h.2
+    exact at?_write m hm.1 h _ _ (by rw [Array.getElem?_setIfInBounds, if_pos rfl, if_pos hlt])
+      (fun k hk => by rw [Array.getElem?_setIfInBounds, if_neg (fun e => hk e.symm)]) r c
+  · rw [if_neg h]
+    refine ⟨_, _, rfl, ?_⟩
+    simp only [Spec.setAt, abs_nrows, abs_ncols, h, ↓reduceIte, Option.getD_none]
+
+theorem updAt_refines (m : Matrix α) (hm : Good m) (i j : Nat) (f : α → α) :
+    ∃ e m', m.updAt i j f = .ok (e, m') ∧ abs m' = (Spec.updAt (abs m) i j f).getD (abs m) := by
+  unfold Matrix.updAt
+  rw [C04.get_exact m hm.1 hm.2 i j]
+  by_cases h : i < m.nrows ∧ j < m.ncols
+  · rw [if_pos h]
+    refine ⟨_, _, rfl, ?_⟩
+    simp only [Spec.updAt, abs_nrows, abs_ncols, h, and_self, ↓reduceIte, Option.getD_some]
+    apply abs_eq rfl rfl rfl
+    intro r c
+    simp only [abs_el]
+    exact at?_write m hm.1 h _ _ (by rw [Array.getElem?_modify, if_pos rfl, at?_inb m h])
+      (fun k hk => by rw [Array.getElem?_modify, if_neg (fun e => hk e.symm)]) r c
+  · rw [if_neg h]
+    refine ⟨_, _, rfl, ?_⟩
+    simp only [Spec.updAt, abs_nrows, abs_ncols, h, ↓reduceIte, Option.getD_none]
 
 /-! ### overwrite, map, elementwise, product -/
 
@@ -825,6 +894,10 @@ theorem step_refines (es : Nat) (w : World α) (op : Op α) (hw : Inv w) (hop : 
     exact inPlace'_refines hw r _ _ (fun m _ => ⟨_, rfl, clear_refines m⟩)
   | drop r =>
     exact ⟨_, rfl, by rw [absW_set]; rfl⟩
+  | setAt r i j v =>
+    exact inPlace_refines hw r _ (Spec.setAt · i j v) (fun m hm => setAt_refines m hm i j v)
+  | updAt r i j f =>
+    exact inPlace_refines hw r _ (Spec.updAt · i j f) (fun m hm => updAt_refines m hm i j f)
 
 /-- C01, contents clause: for every finite history of well-formed operations, from any world
 satisfying the invariant (in particular the empty one), the concrete machine never faults and its
@@ -846,5 +919,21 @@ theorem run_refines (es : Nat) (ops : List (Op α)) : ∀ (w : World α), Inv w 
 theorem run_refines_init (es : Nat) (ops : List (Op α)) (hops : ∀ op ∈ ops, op.WF) :
     ∃ w', History.run es ⟨[]⟩ ops = .ok w' ∧ absW w' = Spec.run es [] ops :=
   run_refines es ops ⟨[]⟩ Inv_nil hops
+
+/-! ### non-vacuity of the element writes on the reference model: the logical view of the 2×3
+column-major `C04.ex23`, an in-range and an out-of-range write / update -/
+
+example : ((Spec.setAt (abs C04.ex23) 1 2 9).map LMat.rows) =
+    some [[some 1, some 2, some 3], [some 4, some 5, some 9]] := by decide
+example : ((Spec.setAt (abs C04.ex23) 2 0 9).map LMat.rows) = none := by decide
+example : ((Spec.updAt (abs C04.ex23) 0 1 (· * 10)).map LMat.rows) =
+    some [[some 1, some 20, some 3], [some 4, some 5, some 6]] := by decide
+example : ((Spec.updAt (abs C04.ex23) 0 3 (· * 10)).map LMat.rows) = none := by decide
+
+/-- the reference model and the concrete machine on one history (as `run_refines` says) -/
+example : (Spec.run 8 (absW ⟨[some C04.ex23]⟩)
+      [.setAt 0 1 2 9, .setAt 0 2 0 7, .updAt 0 0 1 (· * 10), .updAt 0 0 3 (· * 10)]).map
+        (Option.map LMat.rows) =
+    [some [[some 1, some 20, some 3], [some 4, some 5, some 9]]] := by decide
 
 end Matreex.C01
